@@ -218,6 +218,17 @@ pub fn run(ctx: &Ctx, rep: &mut Report) {
             fixed.push(CfmCase { spec, cut_selectors: sel });
         }
         fixed.push(big_zone_case(ctx.seed));
+        // aggregate size: the largest maps of the stated domain (255 segments x 360 azimuths x 25 zones = 2.3 M zones)
+        // and a map with 40 azimuths of 65535 zones (2.6 M zones): limits on the map as a whole, not on one field
+        {
+            let seg: Vec<Vec<(u16, u16)>> = (0..360usize).map(|a| (0..25usize).map(|i| (((a + i) % 3) as u16, (a * 31 + i * 7) as u16)).collect()).collect();
+            fixed.push(CfmCase { spec: CfmSpec { date: 20_000, minutes: 7, segments: vec![seg; 255] }, cut_selectors: vec![9, 40_000] });
+            let mut seg2: Vec<Vec<(u16, u16)>> = vec![Vec::new(); 360];
+            for a in (0..360usize).step_by(9) {
+                seg2[a] = (0..65_535usize).map(|i| ((i % 3) as u16, (i as u16).wrapping_mul(3))).collect();
+            }
+            fixed.push(CfmCase { spec: CfmSpec { date: 20_001, minutes: 8, segments: vec![seg2] }, cut_selectors: vec![5] });
+        }
         // degenerate headers: every header field zero (a six-zero-byte body is a well-formed empty map)
         fixed.push(CfmCase { spec: CfmSpec { date: 0, minutes: 0, segments: vec![] }, cut_selectors: vec![1, 2, 3] });
         fixed.push(CfmCase { spec: CfmSpec { date: 0, minutes: 0, segments: vec![vec![Vec::new(); 360]] }, cut_selectors: vec![] });
@@ -231,7 +242,7 @@ pub fn run(ctx: &Ctx, rep: &mut Report) {
                 rep.record_failure("bodies-and-truncations", f, json!(c));
             }
         }
-        rep.enumerated("fixed-shapes", "seeded bodies with S = 0, 1, 2, 5, 255 segments, one body whose azimuths carry up to 65535 zones, and four degenerate headers (all-zero six-byte body, zero date with one empty segment, zero date with time 1, all-ones date/time), each with its truncation sweep", cuts, cuts, false);
+        rep.enumerated("fixed-shapes", "seeded bodies with S = 0, 1, 2, 5, 255 segments, one body whose azimuths carry up to 65535 zones, two maps of maximal aggregate size (255 x 360 x 25 zones; 40 azimuths of 65535 zones), and four degenerate headers (all-zero six-byte body, zero date with one empty segment, zero date with time 1, all-ones date/time), each with its truncation sweep", cuts, cuts, false);
         rep.sample("fixed-shapes", json!({"segments": 255}));
     }
 
